@@ -50,6 +50,11 @@ pub fn shards(tier: &str) -> Vec<String> {
         for op in ["and", "ite", "exists"] {
             v.push(format!("{k}:{op}:t2"));
         }
+        // the whole run (construction, failing operation, audit, drop + gc, retry) issued from inside a session
+        // of another manager: the calling thread's allocation state does not belong to the manager under test
+        for op in ["and", "ite", "exists", "restrict"] {
+            v.push(format!("{k}:{op}:t1x"));
+        }
         v.push(format!("{k}:reorder:t1"));
     }
     v.push("bdd:import_cross:t1".into());
@@ -58,6 +63,9 @@ pub fn shards(tier: &str) -> Vec<String> {
     }
     for op in ["union", "ite", "and", "not"] {
         v.push(format!("zbdd:{op}:t1d4"));
+    }
+    for op in ["union", "ite"] {
+        v.push(format!("zbdd:{op}:t1x"));
     }
     v.push("zbdd:reorder:t1".into());
     v.push("zbdd:add_vars:t1".into());
@@ -226,12 +234,21 @@ fn case<K: BoolKind>(op: &str, c: usize, threads: u32, phase: &str) -> serde_jso
 
 /// one run at capacity `c`; returns false if the operand construction already failed
 fn run_at<K: K14>(ctx: &mut Ctx, op: &str, c: usize, threads: u32, b0: &mut Option<usize>, need: usize) -> bool {
+    if threads == 102 {
+        crate::proto::throttle_threads();
+        let outer = K::new_manager(16, 16, 1);
+        return outer.with_manager_shared(|_| run_at_inner::<K>(ctx, op, c, 1, true, b0, need));
+    }
+    run_at_inner::<K>(ctx, op, c, threads, false, b0, need)
+}
+
+fn run_at_inner<K: K14>(ctx: &mut Ctx, op: &str, c: usize, threads: u32, nested: bool, b0: &mut Option<usize>, need: usize) -> bool {
     ctx.count("evaluations", 1);
     let base = attrs(&[("kind", K::NAME), ("op", op)]);
     let mut fail = |ctx: &mut Ctx, class: &str, phase: &str, msg: String| {
         let mut a = base.clone();
         a.insert("class".into(), class.into());
-        ctx.viol(a, case::<K>(op, c, threads, phase), &format!("{} {op} at node capacity {c} ({}), {phase}: {msg}", K::NAME, if threads == 101 { "1 worker, split depth 4".to_string() } else { format!("{threads} worker(s)") }));
+        ctx.viol(a, case::<K>(op, c, threads, phase), &format!("{} {op} at node capacity {c} ({}), {phase}: {msg}", K::NAME, if threads == 101 { "1 worker, split depth 4".to_string() } else if nested { "1 worker, nested in a session of another manager".to_string() } else { format!("{threads} worker(s)") }));
     };
     crate::proto::throttle_threads();
     let (threads, split) = if threads == 101 { (1, Some(4)) } else if threads > 1 { (threads, Some(2)) } else { (1, None) };
@@ -415,6 +432,7 @@ pub fn run(ctx: &mut Ctx) {
     let threads = match p[2] {
         "t2" => 2,
         "t1d4" => 101, // encoded: one worker, split depth 4
+        "t1x" => 102,  // encoded: one worker, everything nested in a session of another manager
         _ => 1,
     };
     let op = p[1].to_string();
